@@ -107,6 +107,33 @@ fn conditional_graph(
     Ok(cfg)
 }
 
+// A linking branch writes its link register (address of the branch + 8), and a conditional one
+// decides whether it is taken, before the instruction in its delay slot executes. This graph runs
+// before the delay slot; the branch itself is emitted after it.
+fn link_graph(
+    address: u64,
+    link_register: Scalar,
+    branching_condition: Option<Expression>,
+) -> Result<ControlFlowGraph, Error> {
+    let mut cfg = ControlFlowGraph::new();
+
+    let block_index = {
+        let block = cfg.new_block()?;
+        if let Some(branching_condition) = branching_condition {
+            block.assign(scalar("branching_condition", 1), branching_condition);
+        }
+        block.assign(link_register, expr_const(address + 8, 32));
+        block.index()
+    };
+
+    cfg.set_entry(block_index)?;
+    cfg.set_exit(block_index)?;
+
+    cfg.set_address(Some(address));
+
+    Ok(cfg)
+}
+
 fn translate_block(
     bytes: &[u8],
     address: u64,
@@ -668,12 +695,34 @@ fn translate_block(
                     successors.push((operand.imm() as u64, None));
                     branch_delay = TranslateBranchDelay::Branch;
                 }
-                capstone::mips_insn::MIPS_INS_BAL
-                | capstone::mips_insn::MIPS_INS_BGEZAL
-                | capstone::mips_insn::MIPS_INS_BLTZAL
-                | capstone::mips_insn::MIPS_INS_JAL
-                | capstone::mips_insn::MIPS_INS_JALR => {
-                    block_graphs.push((instruction.address, nop_graph(instruction.address)?));
+                capstone::mips_insn::MIPS_INS_BAL | capstone::mips_insn::MIPS_INS_JAL => {
+                    block_graphs.push((
+                        instruction.address,
+                        link_graph(instruction.address, scalar("$ra", 32), None)?,
+                    ));
+                    branch_delay = TranslateBranchDelay::BranchFallThrough;
+                }
+                capstone::mips_insn::MIPS_INS_BGEZAL | capstone::mips_insn::MIPS_INS_BLTZAL => {
+                    let detail = semantics::details(&instruction)?;
+                    let lhs = semantics::get_register(detail.operands[0].reg())?.expression();
+                    let negative = Expression::cmplts(lhs, expr_const(0, 32))?;
+                    let condition = if instruction_id == capstone::mips_insn::MIPS_INS_BLTZAL {
+                        negative
+                    } else {
+                        Expression::cmpeq(negative, expr_const(0, 1))?
+                    };
+                    block_graphs.push((
+                        instruction.address,
+                        link_graph(instruction.address, scalar("$ra", 32), Some(condition))?,
+                    ));
+                    branch_delay = TranslateBranchDelay::BranchFallThrough;
+                }
+                capstone::mips_insn::MIPS_INS_JALR => {
+                    let (link_register, _) = semantics::jalr_operands(&instruction)?;
+                    block_graphs.push((
+                        instruction.address,
+                        link_graph(instruction.address, link_register, None)?,
+                    ));
                     branch_delay = TranslateBranchDelay::BranchFallThrough;
                 }
                 capstone::mips_insn::MIPS_INS_JR => {
